@@ -8,7 +8,8 @@ VARIABLES tid, l, stack, info, dead, bad
 vars == <<tid, l, stack, info, dead, bad>>
 \* stack[th]: run ids the thread is inside (innermost last); info[run] = [start, roots, next, ended]
 \* dead: runs that have returned
-NoInfo == [start |-> 0, roots |-> <<>>, next |-> 1, ended |-> {}]
+\* hastill / till: the run was given an absolute end date; lt[i]: date of the latest step of endless root i
+NoInfo == [start |-> 0, roots |-> <<>>, next |-> 1, ended |-> {}, hastill |-> FALSE, till |-> 0, lt |-> [i \in 1..8 |-> 0 - 1000]]
 Init == /\ tid \in 1..N /\ l = 1 /\ bad = "" /\ stack = [t \in Ths |-> <<>>]
         /\ info = [r \in 1..64 |-> NoInfo] /\ dead = {}
 Fail(c) == bad' = c /\ UNCHANGED <<stack, info, dead>>
@@ -28,7 +29,8 @@ Step ==
                  ELSE UNCHANGED <<stack, info, dead, bad>>
             [] e.e = "enter" ->
                  /\ stack' = [stack EXCEPT ![th] = Append(@, r)]
-                 /\ info' = [info EXCEPT ![r] = [NoInfo EXCEPT !.start = e.start, !.roots = e.roots]]
+                 /\ info' = [info EXCEPT ![r] = [NoInfo EXCEPT !.start = e.start, !.roots = e.roots,
+                                                                !.hastill = F(e, "hastill", FALSE), !.till = F(e, "till", 0)]]
                  /\ UNCHANGED <<dead, bad>>
             [] e.e = "first" ->
                  IF TopOf(th) # r THEN Fail("C15.foreign_loop")
@@ -39,12 +41,29 @@ Step ==
                  IF TopOf(th) # r THEN Fail("C15.foreign_loop")
                  ELSE IF e.raised THEN Fail("C15.simulation_lost")      \* time.now failed inside a running simulation
                  ELSE IF e.v # e.expect THEN Fail("C15.clock_disturbed")
+                 ELSE IF info[r].hastill /\ e.v > info[r].till THEN Fail("C15.ran_past_till")
                  ELSE UNCHANGED <<stack, info, dead, bad>>
+            [] e.e = "tick" ->
+                 IF TopOf(th) # r THEN Fail("C15.foreign_loop")
+                 ELSE IF e.t # e.expect THEN Fail("C15.clock_disturbed")
+                 ELSE IF info[r].hastill /\ e.t > info[r].till THEN Fail("C15.ran_past_till")
+                 ELSE info' = [info EXCEPT ![r].lt[e.root] = e.t] /\ UNCHANGED <<stack, dead, bad>>
             [] e.e = "root_end" ->
                  info' = [info EXCEPT ![r].ended = @ \cup {e.root}] /\ UNCHANGED <<stack, dead, bad>>
             [] e.e = "exit" ->
                  LET roots == info[r].roots IN
                  IF TopOf(th) # r THEN Fail("C15.exit_not_innermost")
+                 ELSE IF info[r].hastill THEN
+                      \* ended by its date: no failure, everything due BEFORE the date has happened, nothing after it
+                      (LET st == info[r].start  tl == info[r].till IN
+                      IF e.out # "ok" THEN Fail("C15.outcome")
+                      ELSE IF \E i \in 1..Len(roots) : roots[i].kind = "ok" /\ st + roots[i].d < tl /\ i \notin info[r].ended
+                           THEN Fail("C15.ended_before_till")
+                      ELSE IF \E i \in 1..Len(roots) : roots[i].kind = "forever" /\ st + roots[i].d + 1 <= tl - 1
+                                                        /\ info[r].lt[i] < tl - 1
+                           THEN Fail("C15.ended_before_till")
+                      ELSE /\ stack' = [stack EXCEPT ![th] = SubSeq(@, 1, Len(@) - 1)]
+                           /\ dead' = dead \cup {r} /\ UNCHANGED <<info, bad>>)
                  ELSE IF Bad(roots) = {} /\ e.out # "ok" THEN Fail("C15.outcome")
                  ELSE IF Bad(roots) = {} /\ info[r].ended # 1..Len(roots) THEN Fail("C15.not_quiescent_at_return")
                  ELSE IF Bad(roots) # {} /\ roots[FirstBad(roots)].kind = "raise"
